@@ -61,3 +61,32 @@ PROPS["C10"] = {
     "technique": "Lean 4 proof (case analysis + induction over the recovery loop, uint32 arithmetic explicit) + regenerated bound-check facts + byte-level differential correspondence",
     "design_ref": "DESIGN.md section 6 C10",
 }
+
+DBTRUST = "Pebble as an ordered map for a lawful comparer (C11); protobuf (un)marshalling of StorageEntry / NotificationBatch; fmt.Sprintf/Sscanf and url.PathEscape transcribed by hand into the model (validated by the correspondence runs)"
+DBRULE = "generated request programs on a real kv.DB (Pebble, in-memory VFS) with server.WrapperUpdateOperationCallback: puts with every option mix (expected version -1/current/stale, sessions alive/dead, client identity, partition key, sequence deltas incl. 0 and 2^64-1, 1-2 secondary indexes with order-adjacent names), deletes, range deletes (also 98..150 keys around the 100-key threshold), several operations per request, adversarial key alphabets ('/', '-', '.', '\\x01', '%', neighbours of sequence prefixes), reads (get x5 comparison types, list, range-scan, index get/list, notifications) and full ordered dumps of the store; every output line is compared with the Lean M-Db model"
+
+PROPS["C12"] = {
+    "modules": ["OxiaVerif.Props.C12"],
+    "facts": ["applyOrderPutsDeletesRanges", "deleteRangeThreshold", "processWriteSingleBatchCommit"],
+    "trusted_base": [KERNEL, EXTRACT, CORR, DBTRUST],
+    "assumptions": ["a write batch is modelled as sequential application on a working copy that is committed atomically (Pebble indexed batch)",
+                    "requests that make ProcessWrite return an infrastructure error are C13's subject; here they commit nothing"],
+    "rule": DBRULE + ". Oracle: an independent map specification in Go (version ids strictly increasing, conditional iff, modification counts, delete not-found, range delete = exact range, exact reads). Non-trivial = at least one operation that took effect and one that was refused; distinct by op list.",
+    "level_text": "Machine-checked proof (Lean 4) over the database model, for every batch state and request: a successful put gets version tracker+1 and a refused one changes nothing; every stored version id is <= the tracker in all reachable states, so new ids are strictly greater than all earlier ones; modification count 0 on creation / previous+1 on update; the version check fails iff the expectation does not match (-1 only on an absent key); delete of an absent key reports not-found; a successful delete removes the record; a range delete leaves no key of [start,end) with either strategy (<=100 point deletes, >100 range tombstone). Model tied to server/kv/db.go by differential runs on the real kv.DB with the real callbacks.",
+    "level_note": "Trusted: Lean kernel; extractor (loop order, threshold, single commit); " + DBTRUST + "; harness + driver. Partial: 'no other record is touched' by a range delete is oracle-checked on the implementation, not proved; client access to __oxia/ keys is outside WellFormed.",
+    "technique": "Lean 4 proof (ordered-map lemmas + invariant over batch operations) + regenerated facts + differential correspondence on the real kv.DB",
+    "design_ref": "DESIGN.md section 6 C12",
+}
+
+PROPS["C13"] = {
+    "modules": ["OxiaVerif.Props.C13"],
+    "facts": ["applyOrderPutsDeletesRanges"],
+    "trusted_base": [KERNEL, CORR, DBTRUST],
+    "assumptions": ["infrastructure errors of the storage engine itself (I/O) are outside the model: the model's map cannot fail",
+                    "the reachable-state generalisation (every user-visible key holds a storage entry) is not proved; the per-operation theorems take it as hypothesis"],
+    "rule": DBRULE + ", with emphasis on requests a well-behaved client library would not build (sequence put without partition key, first delta 0, fewer deltas than existing suffixes, expected version on a sequence put, dead sessions, ranges that enclose the __oxia/ key space, non-UTF-8 keys). Oracle: ProcessWrite must return a response, never an error or a panic. Non-trivial = the program contains such a request.",
+    "level_text": "Machine-checked proof (Lean 4): a put without sequence deltas and a delete are always answered with a per-operation status whatever options they carry, and a refused operation has no side effect; the full statement (every request the protobuf type admits) is stated, proved FALSE on the current tree with concrete witnesses (sequence put without partition key / zero delta) and kept as an open known finding; the model agrees with the real ProcessWrite on which requests fail and how (differential runs).",
+    "level_note": "Trusted: Lean kernel; " + DBTRUST + "; harness + driver. Partial: C13_put_total_partial / C13_delete_total_partial (hypothesis: the touched key holds a storage entry); sequence puts and ranges over internal keys are the known findings D-5 / D-15.",
+    "technique": "Lean 4 proof (totality by case analysis) + proved counterexamples + differential correspondence on the real kv.DB",
+    "design_ref": "DESIGN.md section 6 C13",
+}
